@@ -385,7 +385,7 @@ async fn run_actor(sh: Shared, host: usize, actor: usize, ops: Vec<Op>) {
                         let (ss, st) = (sh.log.seq(), sh.step.get());
                         let fp = Rc::new(Cell::new(false));
                         let fut = FirstPoll { f: Box::pin(s.readable()), polled: false, first_pending: fp.clone() };
-                        let mut ready = tokio::time::timeout(sh.tick() * (*wait as u32).max(1), fut).await.is_ok();
+                        let ready = tokio::time::timeout(sh.tick() * (*wait as u32).max(1), fut).await.is_ok();
                         if ready {
                             // the readiness event is not consumed yet: further waits must not lose it
                             for _ in 1..(*reps).max(1) {
@@ -395,7 +395,6 @@ async fn run_actor(sh: Shared, host: usize, actor: usize, ops: Vec<Op>) {
                                 sh.count("readable_repeated_before_consume");
                                 if tokio::time::timeout(sh.tick() * (*wait as u32).max(1), s.readable()).await.is_err() {
                                     sh.count("repeated_readable_blocked_although_ready");
-                                    ready = true;
                                 }
                             }
                         }
@@ -1207,6 +1206,11 @@ impl Property for C09 {
                         Op::Recv { buf, wait } if *buf != 64 => {
                             let mut c = sc.clone();
                             c.hosts[h].actors[a][o] = Op::Recv { buf: 64, wait: *wait };
+                            out.push(c);
+                        }
+                        Op::Readable { buf, wait, reps, gap, consume } if *reps > 1 || !*consume || *gap > 0 => {
+                            let mut c = sc.clone();
+                            c.hosts[h].actors[a][o] = Op::Readable { buf: *buf, wait: *wait, reps: (*reps - 1).max(1), gap: 0, consume: true };
                             out.push(c);
                         }
                         Op::Sleep { ticks, extra_ms } if *extra_ms != 0 => {
